@@ -20,6 +20,8 @@ THEOREMS = [
     "Mtv.Client.processErr_source_shape",
     "Mtv.Client.migrate_configured",
     "Mtv.Client.migrate_unconfigured_is_error",
+    "Mtv.Client.dclist_after_calls",
+    "Mtv.Client.migrate_after_calls",
     "Mtv.Client.other_errors_returned",
     "Mtv.Client.onRpcError_total",
 ]
@@ -38,7 +40,11 @@ RULE = ("operations: every row of specificErrors (regenerated from the source) a
         "object or Bool answer, MakeRequestWithHintToDecoder with bare Vector<long> / Vector<int> / Vector<object> answers of "
         "0..20000 elements, delivered plain / gzip_packed / in a msg_container / both, answered at the home peer and at the data "
         "centre the request is repeated at after PHONE_MIGRATE_n: the caller gets exactly the value that peer made for this "
-        "request, as the Go type that kind of call returns). distinct = distinct operation "
+        "request, as the Go type that kind of call returns); the migration under what surrounds it (c17.hist): the client's "
+        "session store works / always fails (load-only, read-only) / is slow / is the library's file store / is the file store "
+        "with its directory removed, and the data-centre table is made by a HISTORY of SetDCList calls (2-4 calls with disjoint, "
+        "overlapping, overriding, repeated, empty arguments, before and after CreateConnection) followed by PHONE_MIGRATE_n for every "
+        "id the history configures (the last call that names it decides) and for ids it does not. distinct = distinct operation "
         "lines; each is compared with the Lean model and judged by the independent oracle of the property text")
 
 GEN_LEAN = os.path.join(vlib.LEAN, "Mtv", "Gen", "ErrTables.lean")
